@@ -332,6 +332,103 @@ def check(case, ctx):
         ctx.mark_nontrivial(case, sample_class=(len(case.get("stmts", [])), case.get("nl")))
 
 
+def extra_engine(tier, seed, ctx):
+    """Thorough tier: (1) the repository's own test modules, with their d42 imports mapped back to
+    v1 names through the inverse table, as a realistic corpus; (2) an atheris campaign mutating
+    source text from the generated corpus under the same AST-differential oracle."""
+    if tier != "thorough":
+        return None
+    import json
+    import os
+    import shutil
+    import subprocess
+    import sys
+    import tempfile
+    from d42.migration.migrate_v1_to_v2 import rewrite_imports
+    import hypothesis
+    from hypothesis import HealthCheck, given, settings
+    mapping = _mapping()
+    out = {"engine": "realistic corpus + atheris", "failures": []}
+    # ---- (1) realistic corpus -----------------------------------------------------------------
+    inverse = {}
+    for mod, names in mapping.items():
+        for name, (nm, nn) in names.items():
+            inverse.setdefault((nm, nn), (mod, name))
+    repo = os.environ.get("D42_VERIF_REPO", "/repo")
+    n_files = n_back = 0
+    for root, _dirs, files in os.walk(os.path.join(repo, "tests")):
+        for fn in sorted(files):
+            if not fn.endswith(".py"):
+                continue
+            try:
+                src = open(os.path.join(root, fn), encoding="utf-8").read()
+                tree = ast.parse(src)
+            except (OSError, SyntaxError):
+                continue
+            lines = src.splitlines(keepends=True)
+            changed = False
+            for node in reversed(tree.body):
+                if isinstance(node, ast.ImportFrom) and node.level == 0 and node.lineno == node.end_lineno \
+                        and all((node.module, a.name) in inverse for a in node.names):
+                    mods = {inverse[(node.module, a.name)][0] for a in node.names}
+                    if len(mods) == 1:
+                        names = ", ".join(a.name + (f" as {a.asname}" if a.asname else "") for a in node.names)
+                        lines[node.lineno - 1] = f"from {mods.pop()} import {names}\n"
+                        changed = True
+            if not changed:
+                continue
+            v1 = "".join(lines)
+            n_files += 1
+            ctx.evaluations += 1
+            try:
+                res = rewrite_imports(v1, mapping)
+                if oracle(v1, res, mapping):
+                    n_back += 1
+            except Violation as v:
+                out["failures"].append(({"src": v1}, v.key, v.detail))
+                break
+            except Exception as e:  # noqa
+                out["failures"].append(({"src": v1}, "rewriter-raises", repr(e)))
+                break
+    out["realistic_corpus"] = {"files_mapped_back_to_v1": n_files, "with_mapped_import": n_back}
+    if out["failures"]:
+        return out
+    # ---- (2) atheris over mutated generated sources --------------------------------------------------
+    try:
+        import atheris  # noqa: F401
+    except ImportError:
+        out["atheris"] = "skipped: not importable"
+        return out
+    work = tempfile.mkdtemp(prefix="c19fuzz-")
+    try:
+        corpus = os.path.join(work, "corpus")
+        os.makedirs(corpus)
+        texts = []
+
+        @hypothesis.seed(seed)
+        @settings(max_examples=300, database=None, deadline=None, suppress_health_check=list(HealthCheck))
+        @given(strategy("quick"))
+        def collect(case):
+            texts.append(render(case))
+        collect()
+        for i, t in enumerate(texts):
+            with open(os.path.join(corpus, f"gen{i}.py"), "w", encoding="utf-8", newline="") as fh:
+                fh.write(t)
+        res = os.path.join(work, "result.json")
+        cmd = [sys.executable, "-W", "ignore", "-m", "pbt.fuzz_c19", res, corpus, "-runs=300000",
+               f"-seed={seed + 1}", "-max_total_time=150", "-max_len=400", "-print_final_stats=0"]
+        p = subprocess.run(cmd, capture_output=True, text=True, timeout=400)
+        data = json.load(open(res)) if os.path.exists(res) else {"stats": {}, "violation": None}
+        out["atheris"] = {"seed_inputs": len(texts), "exit": p.returncode, **data.get("stats", {})}
+        ctx.evaluations += data.get("stats", {}).get("execs", 0)
+        v = data.get("violation")
+        if v:
+            out["failures"].append(({"src": v["src"]}, v["key"], v["detail"]))
+    finally:
+        shutil.rmtree(work, ignore_errors=True)
+    return out
+
+
 def require(ctx, tier):
     for lab in ("style:paren-multi", "style:backslash", "joined-with-semicolon", "crlf",
                 "no-final-newline", "exotic-line-break-char", "has-block", "star", "relative",
